@@ -158,6 +158,7 @@ def run(rep: Report, repo: Repo):
     backrefs(rep, repo)
     removal(rep, cmod)
     ctor_order(rep, cmod)
+    dangling(rep, cmod)
     stats(rep, cmod)
 
 
@@ -310,6 +311,63 @@ def removal(rep, cmod):
     rep.ob('C09.remove', 'squeeze only fork drivers', ok)
     if not ok:
         rep.violate('C09.remove', cmod, f, iffs[0] if iffs else 'fork squeeze', 'Line.remove: outputs are squeezed (deleted + renumbered) only for fork drivers', node=f)
+
+
+def dangling(rep, cmod):
+    """remove_dangling_nodes evaluated (Engine M) on stand-in nodes: every pin pattern of up to three inputs (unconnected, or driven
+    by one of two drivers - the same driver may feed several pins) and up to two outputs (connected or not)."""
+    import itertools
+    from kvstatic import minieval
+    from kvstatic.core import ModelError as _ME
+    rep.rule('C09.dangling', 'remove_dangling_nodes: a node without connected outputs is removed together with every one of its connected input lines '
+                             '(one per pin, also when several pins have the same driver) and the search continues at each driver; otherwise nothing is touched')
+    f = cmod.func('Circuit.remove_dangling_nodes')
+    bad = None
+    n = 0
+    try:
+        for n_in in range(0, 4):
+            for pat in itertools.product((None, 'd1', 'd2'), repeat=n_in):
+                for outs in ((), (None,), ('x',), (None, 'x'), (None, None)):
+                    n += 1
+                    log = []
+                    drivers = {k: minieval.NS(name=k) for k in ('d1', 'd2')}
+                    lines = []
+                    for k, d in enumerate(pat):
+                        if d is None:
+                            lines.append(None)
+                        else:
+                            ln = minieval.NS(driver=drivers[d], name=f'l{k}')
+                            ln.remove = minieval.stub(lambda ln=ln: log.append(('line', ln.name)))
+                            lines.append(ln)
+                    root = minieval.NS(ins=lines, outs=[None if o is None else minieval.NS(name='o') for o in outs], name='root')
+                    root.remove = minieval.stub(lambda: log.append(('node', 'root')))
+                    me = minieval.NS()
+                    me.remove_dangling_nodes = minieval.stub(lambda d: log.append(('recurse', d.name)))
+                    try:
+                        minieval.call_function(f, [me, root])
+                    except (IndexError, KeyError, TypeError, AttributeError) as e:
+                        log.append(('raises', type(e).__name__))
+                    dangling_ = all(o is None for o in outs)
+                    want_lines = sorted(f'l{k}' for k, d in enumerate(pat) if d is not None) if dangling_ else []
+                    got_lines = sorted(x[1] for x in log if x[0] == 'line')
+                    got_rec = {x[1] for x in log if x[0] == 'recurse'}
+                    want_rec = {d for d in pat if d is not None} if dangling_ else set()
+                    ok = got_lines == want_lines and got_rec == want_rec and ([x for x in log if x[0] == 'node'] == ([('node', 'root')] if dangling_ else [])) \
+                        and not any(x[0] == 'raises' for x in log)
+                    if not ok and bad is None:
+                        bad = (list(pat), list(outs), log)
+        ok = bad is None
+        rep.ob('C09.dangling', f'evaluated on {n} pin patterns', ok, evals=n)
+        if not ok:
+            rep.violate('C09.dangling', cmod, f, 'remove_dangling_nodes', f'remove_dangling_nodes: for a node with input pins driven by {bad[0]} and outputs {bad[1]} the effects are {bad[2]}: '
+                        f'every connected input line must be removed exactly once (a line left behind keeps a reader that is no longer in the circuit), the node once, and each driver visited', node=f)
+    except _ME as e:
+        rep.note(f'C09.dangling: remove_dangling_nodes is outside the evaluator subset ({e}); structural form used')
+        txt = [cz(s) for s in body_no_doc(f)]
+        ok = 'lines=[lforlinroot_node.insiflisnotNone]' in txt and 'drivers=[l.driverforlinlines]' in txt and 'forlinlines:¦l.remove()' .replace('¦', '') in ''.join(txt).replace('¦', '')
+        rep.ob('C09.dangling', 'structural form', ok)
+        if not ok:
+            rep.violate('C09.dangling', cmod, f, 'remove_dangling_nodes', 'remove_dangling_nodes must collect the connected input lines as a list (one per pin), remove each, and recurse into their drivers', node=f)
 
 
 def ctor_order(rep, cmod):
